@@ -12,7 +12,7 @@ func init() {
 	register("C20", &propDef{
 		Run: runC20,
 		Info: propInfo{
-			Explanation: "XorBytes: (R1) the build constraints (//go:build expressions parsed with go/build/constraint plus GOARCH file-name suffixes) are evaluated over the complete truth table of the tags that occur x {arm, other}: exactly one file defining XorBytes is selected in every row; (R2) the definition active in each analysed configuration is a single-block pure delegation 'return subtle.XORBytes(dst, {a,b})' with no other instruction - crypto/subtle's contract then gives the property - or else satisfies the legacy rules; (R3) legacy files that no available toolchain selects are parsed and type-checked stand-alone and checked structurally: n is the minimum of the two lengths (guarded phi), 0 is returned only on n == 0, every dispatch arm receives (dst, a, b, n) with pointers &x[0], n is returned, every xor loop uses one index for destination and operands, steps by 1, and the loops cover exactly [0,n) (byte loop) or [0,n/w) words + [n-n%w,n) bytes. The assembly bodies and the standard library are trusted.",
+			Explanation: "XorBytes: (R1) the build constraints (//go:build expressions parsed with go/build/constraint plus GOARCH file-name suffixes) are evaluated over the complete truth table of the tags that occur x {arm, other}: exactly one file defining XorBytes is selected in every row; (R2) the definition active in each analysed configuration is a single-block pure delegation 'return subtle.XORBytes(dst, {a,b})' with no other instruction - crypto/subtle's contract then gives the property - or else satisfies the legacy rules; (R3) legacy files that no available toolchain selects are parsed and type-checked stand-alone and checked structurally: n is the minimum of the two lengths (guarded phi), 0 is returned only on n == 0, every dispatch arm receives (dst, a, b, n) with pointers &x[0], n is returned, every xor loop uses one index for destination and operands, steps by 1, and the loops cover exactly [0,n) (byte loop) or [0,n/w) words + [n-n%w,n) bytes; a xor routine writes no memory outside these loops and XorBytes has no explicit panic (decided path by path with private helpers inlined; the legacy file is type-checked together with the files a build selecting it would also select). The assembly bodies and the standard library are trusted.",
 			RuleText:    "one obligation per rule / file / configuration; sites are files, truth-table rows, calls and loops; non-trivial = matched at least one site",
 			Assumptions: append([]string{"crypto/subtle.XORBytes implements bytewise XOR over min(len(x),len(y)) with exact or no overlap (standard library contract)", "xor_arm.s implements the documented routines"}, commonAssumptions...),
 		},
@@ -21,7 +21,7 @@ func init() {
 	register("C18", &propDef{
 		Run: runC18,
 		Info: propInfo{
-			Explanation: "dpipe: Write queues a freshly allocated copy on the write channel (taint); Pipe cross-wires two distinct channels and gives each end its own closed channel, closed once (sync.Once) by that end only; Read takes one message per return and reports len(message) only on the edge len(message) <= len(buffer), else len(buffer). Bridge: Push copies (taint); for Push, Len, Reorder, Drop, DropNextNWrites, ReorderNextNWrites and Filter the code of direction 0 and of direction 1 is identical up to the renaming 0<->1 (mirror comparison of canonical serialisations of the two branches: first divergence is reported); a completed reorder burst is appended to the existing queue and the stack is then reset to nil on every path (no aliasing, no re-delivery); Tick offers the head (index 0) of each queue to the peer's unbuffered read channel without blocking and removes it exactly on the success edge. Not decided: that reorder/drop scripts realise exactly the intended permutation.",
+			Explanation: "dpipe: Write queues a freshly allocated copy on the write channel (taint) and every successful Write has passed the send (also for an empty message); Pipe cross-wires two distinct channels and gives each end its own closed channel, closed once (sync.Once) by that end only; Read takes one message per return and reports len(message) only on the edge len(message) <= len(buffer), else len(buffer). Bridge: Push copies (taint); for Push, Len, Reorder, Drop, DropNextNWrites, ReorderNextNWrites and Filter the code of direction 0 and of direction 1 is identical up to the renaming 0<->1 (mirror comparison of canonical serialisations of the two branches: first divergence is reported); a completed reorder burst is appended to the existing queue and the stack is then reset to nil on every path (no aliasing, no re-delivery); Tick offers the head (index 0) of each queue to the peer's unbuffered read channel without blocking and removes it exactly on the success edge. Not decided: that reorder/drop scripts realise exactly the intended permutation.",
 			RuleText:    "one obligation per rule / per mirrored method; sites are sends, stores, returns, branch regions; non-trivial = matched at least one site",
 			Assumptions: commonAssumptions,
 		},
@@ -37,7 +37,7 @@ func init() {
 	register("C04", &propDef{
 		Run: runC04,
 		Info: propInfo{
-			Explanation: "Replay-detector rules decided by symbolic evaluation of every acyclic path of Check and of the accept closure (linear forms with store-to-load forwarding, no concrete inputs): every accepting path has established seq <= max and either 'newer' or (inside the window by the unsigned / folded distance, and the bit at exactly that distance clear); every refusing path refuses for one of the legitimate reasons; the wrapping detector folds the distance with exactly d > max/2 and d <= -max/2; Check writes nothing (purity); every path of accept calls SetBit exactly once, at the very distance Check tested (0 after moving the head), moves the head exactly when the number is newer, shifting by exactly the distance first; Bit/SetBit guard i < n and address word i/64; the truncation mask of the top word has width >= n%64 (affine check at both ends of [1,63]) and 64 for n%64 == 0. Not decided: the multi-word carry of Lsh, overflow of windowSize+seq near 2^64, the 'latest' result for a late sequence number 0 (value-level).",
+			Explanation: "Replay-detector rules decided by symbolic evaluation of every acyclic path of Check and of the accept closure (linear forms with store-to-load forwarding, no concrete inputs): every accepting path has established seq <= max and either 'newer' or (inside the window by the unsigned / folded distance, and the bit at exactly that distance clear); every refusing path refuses for one of the legitimate reasons; the wrapping detector folds the distance with exactly d > max/2 and d <= -max/2; Check writes nothing (purity); every path of accept calls SetBit exactly once, at the very distance Check tested (0 after moving the head), moves the head exactly when the number is newer, shifting by exactly the distance first; Bit/SetBit guard i < n and address word i/64; the truncation mask of the top word has width >= n%64 (affine check at both ends of [1,63]) and 64 for n%64 == 0. Lsh(n), n = 64q+r, writes into each word exactly (bits[i] << n) | bits[i-q] << r | bits[i-q-1] >> (64-r) with the carry terms present exactly when their index is >= 0 (term sets compared per path of one loop iteration); the plain detector's unsigned arithmetic cannot wrap around (every subtraction is on a path that established the order of its operands, no two variable quantities are added); its accept reports 'latest' exactly when the head moves or in the initial position. Not decided: truncation of a jump of 2^32 or more to a 32-bit uint on 32-bit platforms.",
 			RuleText:    "one obligation per rule per detector; a site is one path of Check / accept with its literal set, or a word access; non-trivial = matched at least one path",
 			Assumptions: commonAssumptions,
 		},
@@ -46,7 +46,7 @@ func init() {
 	register("C05", &propDef{
 		Run: runC05,
 		Info: propInfo{
-			Explanation: "Same engine as C04 (symbolic evaluation of all paths of Check/accept as linear forms): purity of Check (no field of the detector and no mask operation is written outside the accept closure); the acceptance predicate of every path equals the sliding-window rule in both directions (accepting paths carry all required literals, refusing paths carry a legitimate reason) including the exact fold boundaries of the wrapping detector and unsigned distance comparisons in the plain detector; accept reports true exactly on the head-moving path in the wrapping detector. Explicitly not decided (value-level, known deviations that stay in the tree): a late sequence number 0 reported as latest by the plain detector; refusal of fresh numbers within window-size of 2^64.",
+			Explanation: "Same engine as C04 (symbolic evaluation of all paths of Check/accept as linear forms): purity of Check (no field of the detector and no mask operation is written outside the accept closure); the acceptance predicate of every path equals the sliding-window rule in both directions (accepting paths carry all required literals, refusing paths carry a legitimate reason) including the exact fold boundaries of the wrapping detector and unsigned distance comparisons in the plain detector; accept reports true exactly on the head-moving path in the wrapping detector. Rules R6 (no wrap-around of the plain detector's unsigned arithmetic), the 'latest' result of the plain detector and R7 (word terms of Lsh) were added in the build round and uncovered two further defects of the pinned tree (too-old test wrapping near 2^64; late 0 reported as latest), both repaired.",
 			RuleText:    "as C04",
 			Assumptions: commonAssumptions,
 		},
@@ -55,7 +55,7 @@ func init() {
 	register("C01", &propDef{
 		Run: runC01,
 		Info: propInfo{
-			Explanation: "Delivery rules of the virtual network on SSA/CFG/call graph: WriteTo copies the payload into a fresh slice (taint) and Clone deep-copies it; every function on the datagram path forwards at most once per datagram (path counting per call / per dequeued chunk) and forwards the very chunk it received/dequeued/translated; a datagram is dropped only on the enumerated drop edges (each conditional edge that cannot reach a forward any more is classified by the kind of its guard and compared with a frozen table); the queue is a FIFO consumed only by processChunks, which runs only in the single goroutine Start launches on the not-started edge under the mutex; the host delivers to the socket looked up by the destination address on the found edge; towards the parent exactly the outbound translation's non-error result is pushed; the wake-up channel has capacity >= 1 and a token follows every successful enqueue; sends on a socket's receive queue are non-blocking, under its mutex, on the !closed edge, and the queue is closed once in that critical section; no go/deferred forward on the datagram path; the chunk carries the determined source IP, the local port and the caller's destination. NAT address correctness is C02/C03; capacity conditions and timing are not decided.",
+			Explanation: "Delivery rules of the virtual network on SSA/CFG/call graph: WriteTo copies the payload into a fresh slice (taint), every successful WriteTo has handed the chunk to the network, and Clone deep-copies it; every function on the datagram path forwards at most once per datagram (path counting per call / per dequeued chunk) and forwards the very chunk it received/dequeued/translated; a datagram is dropped only on the enumerated drop edges (each conditional edge that cannot reach a forward any more is classified by the kind of its guard and compared with a frozen table); the queue is a FIFO consumed only by processChunks, which runs only in the single goroutine Start launches on the not-started edge under the mutex; the host delivers to the socket looked up by the destination address on the found edge; towards the parent exactly the outbound translation's non-error result is pushed; the wake-up channel has capacity >= 1 and a token follows every successful enqueue; sends on a socket's receive queue are non-blocking, under its mutex, on the !closed edge, and the queue is closed once in that critical section; no go/deferred forward on the datagram path; the chunk carries the determined source IP, the local port and the caller's destination. NAT address correctness is C02/C03; capacity conditions and timing are not decided.",
 			RuleText:    "one obligation per rule; sites are forwards, drop edges, channel operations, stores and call-graph edges; non-trivial = matched at least one site",
 			Assumptions: commonAssumptions,
 		},
@@ -87,7 +87,7 @@ func init() {
 	register("C14", &propDef{
 		Run: runC14,
 		Info: propInfo{
-			Explanation: "Delay rules on SSA/CFG: every peek() result is nil-tested or comma-ok asserted before a use that panics on an empty queue (belief contradiction across the five call sites), and fields of a comma-ok asserted head are used only on the ok edge; the delay filter pops and forwards only on the due edge (deadline before now), forwards exactly the wrapped chunk, once per pop; the due time is time.Now()+configured delay computed at arrival, queued before the notification; only timedChunk values enter the filter queue; every path from a timer tick or a timer.Stop() to the next wait re-arms the timer (failed assertions of a non-nil head are infeasible by the previous rule); the timer channel is drained only when Stop() failed; the router pops only chunks whose timestamp is not after now-minDelay (exact linear form of the cut-off) and stamps chunks before enqueueing; the queue is a FIFO (append at end, read/remove index 0). Wall-clock lower bounds and jitter values are not decided.",
+			Explanation: "Delay rules on SSA/CFG: every peek() result is nil-tested or comma-ok asserted before a use that panics on an empty queue (belief contradiction across the five call sites), and fields of a comma-ok asserted head are used only on the ok edge; the delay filter pops and forwards only on the due edge (deadline before now), forwards exactly the wrapped chunk, once per pop; the due time is time.Now()+configured delay computed at arrival, queued before the notification; only timedChunk values enter the filter queue; every path from a timer tick, from a timer.Stop() and from an arrival whose queue head is still present to the next wait re-arms the timer (failed assertions of a non-nil head are infeasible by the previous rule); the timer channel is drained only when Stop() failed; the router pops only chunks whose timestamp is not after now-minDelay (exact linear form of the cut-off) and stamps chunks before enqueueing; the queue is a FIFO (append at end, read/remove index 0). Wall-clock lower bounds and jitter values are not decided.",
 			RuleText:    "one obligation per rule; sites are peek/pop/forward/timer operations and stores; non-trivial = matched at least one site",
 			Assumptions: commonAssumptions,
 		},
@@ -95,7 +95,7 @@ func init() {
 	register("C15", &propDef{
 		Run: runC15,
 		Info: propInfo{
-			Explanation: "Token-bucket rules on SSA/CFG/call graph: every store to the token count is min(float64(maxBurst), .) or subtracts the forwarded size, and the refill executes the capped store on every path under the filter mutex; there is exactly one forwarding site, in the drain loop, guarded by tokens >= size of the peeked head, which is the forwarded value; per loop iteration exactly one pop and one decrement by that size are paired with the forward, and nothing is popped without being forwarded; the queue is popped only by the drain loop and fed only by run with the arriving chunk on every path (discard only via push refusing); single consumer goroutine started once; FIFO queue shape; peek results nil-tested. The byte bound over every interval (floating-point/time arithmetic) is not decided.",
+			Explanation: "Token-bucket rules on SSA/CFG/call graph: every store to the token count is min(float64(maxBurst), .) or subtracts the forwarded size, and the refill executes the capped store on every path under the filter mutex; there is exactly one forwarding site, in the drain loop, guarded by tokens >= size of the peeked head, which is the forwarded value; per loop iteration exactly one pop and one decrement by that size are paired with the forward, and nothing is popped without being forwarded; the queue is popped only by the drain loop and fed only by run with the arriving chunk on every path (discard only via push refusing); single consumer goroutine started once; FIFO queue shape; peek results nil-tested; the constructor builds the queue with no count limit and with the size field read after the caller's options were applied (a field some option sets). The byte bound over every interval (floating-point/time arithmetic) is not decided.",
 			RuleText:    "one obligation per rule; sites are stores, queue operations, forwards and call-graph edges; non-trivial = matched at least one site",
 			Assumptions: commonAssumptions,
 		},
@@ -138,7 +138,7 @@ func init() {
 	register("C06", &propDef{
 		Run: runC06,
 		Info: propInfo{
-			Explanation: "Structural integrity rules of packetio.Buffer decided on the SSA of Write/Read/grow/available/size over all paths: Write copies the caller's slice (taint: the slice value reaches no store/channel/map/closure); every store to contents/occupancy is on the false edges of the size (>=65536) and closed tests and under the mutex; no error return is reachable after a store (refusal is side-effect free) and growth only re-linearises into a fresh array (head=0, tail=bytes copied, strictly larger); the 2-byte header is written and read with the same byte order; Read advances head by the decoded length and reports ErrShortBuffer exactly on copied<length; after every advance of head/tail a freshly loaded wrap test precedes the next use; count++/count-- are paired with stored/returned packets; the free-space test keeps one byte free (exact linear normal form). Not decided: correct splitting of header/payload at every ring offset (value-level).",
+			Explanation: "Structural integrity rules of packetio.Buffer decided on the SSA of Write/Read/grow/available/size over all paths: Write copies the caller's slice (taint: the slice value reaches no store/channel/map/closure); every store to contents/occupancy is on the false edges of the size (>=65536) and closed tests and under the mutex; no error return is reachable after a store (refusal is side-effect free) and growth only re-linearises into a fresh array (head=0, tail=bytes copied, strictly larger); the 2-byte header is written and read with the same byte order; Read advances head by the decoded length and reports (len(buffer), ErrShortBuffer) exactly on the paths that established len(buffer) < length and (length, nil) on those that established length <= len(buffer) (one loop iteration, path by path); on every packet-taking path the head ends, by symbolic evaluation with store-to-load forwarding, at (old head + 2 + length) modulo len(data) whatever was copied; after every advance of head/tail a freshly loaded wrap test precedes the next use; count++/count-- are paired with stored/returned packets; the free-space test keeps one byte free (exact linear normal form). Not decided: the tail arithmetic of Write at every ring offset and the contents copied around the wrap (value-level).",
 			RuleText:    "one obligation per rule per anchored function/helper; a site is a matched store, copy, return, branch or path; non-trivial = matched at least one site",
 			Assumptions: commonAssumptions,
 		},
